@@ -27,7 +27,7 @@ PURE_STR_METHODS = {
     "translate", "join", "copy", "keys", "values", "items", "get",
 }
 PURE_BUILTINS = {"len", "str", "bytes", "int", "float", "bool", "min", "max", "abs", "hex", "ord", "chr", "list", "tuple", "set",
-                 "frozenset", "sorted", "reversed", "sum", "repr", "type", "iter", "next", "enumerate", "zip", "dict", "bytearray", "memoryview", "getattr", "hasattr"}
+                 "frozenset", "sorted", "reversed", "sum", "repr", "type", "iter", "next", "enumerate", "zip", "dict", "bytearray", "memoryview", "getattr", "hasattr", "range", "divmod", "round", "pow"}
 
 _fresh = itertools.count(1)
 
@@ -277,21 +277,27 @@ class TermRule(BaseRule):
         return T("truthy", term_of(vals[0][1]) if len(vals) == 1 else "?")
 
     def _list_builder(self, it, st, node, recv, pos):
-        """append/extend/insert on a local list whose content is known: the variable is re-bound to the longer list term."""
+        """append/extend on a local list (add/update on a local set) whose content is known: the variable is re-bound to the
+        longer list/set term.  `xs.extend(E(x) for x in I)` adds the same elements as `for x in I: xs.append(E(x))`."""
         f = node.func
-        if not (isinstance(f, ast.Attribute) and isinstance(f.value, ast.Name) and recv is not None and recv.sym and recv.sym.startswith("list(")):
+        if not (isinstance(f, ast.Attribute) and isinstance(f.value, ast.Name) and recv is not None and recv.sym and recv.sym.startswith(("list(", "set("))):
             return None
         op, elts = destruct(recv.sym)
-        if op != "list" or f.attr not in ("append", "extend") or len(pos) != 1:
+        kind = {"append": "list", "extend": "list", "add": "set", "update": "set"}.get(f.attr)
+        if op != kind or len(pos) != 1:
             return None
         loops = st.ts.get("loops", ())
         x = term_of(pos[0])
-        if f.attr == "extend":
-            x = T("star", x)
+        if f.attr in ("extend", "update"):
+            gop, gargs = destruct(x)
+            if gop in ("gen", "listcomp", "setcomp") and len(gargs) == 2:
+                x = T("rep", gargs[0], gargs[1])  # one element per element of the iterable, as the explicit loop would add
+            else:
+                x = T("star", x)
         if loops:
             x = T("rep", x, *loops)  # appended once per iteration of the enclosing loop(s)
         s = st.copy()
-        s.env[it.var(f.value.id)] = tv(T("list", *elts, x), none=False, truth=True)
+        s.env[it.var(f.value.id)] = tv(T(op, *elts, x), none=False, truth=True)
         return [Out("normal", s, const(None))]
 
     def _desugar_any_all(self, it, st, node):
@@ -324,6 +330,40 @@ class TermRule(BaseRule):
         ast.fix_missing_locations(expr)
         res, raises = it.truth_fork(st, expr)
         return list(raises) + [Out("normal", s, const(b)) for s, b in res]
+
+    def compare(self, it, st, node, a, b):
+        """x[:n] == "lit" (len n), x[-n:] == "lit", x[0] == "c", x[-1] == "c" are the questions startswith / endswith ask:
+        they are decided by, and decide, the same fact."""
+        if len(node.ops) != 1 or not isinstance(node.ops[0], (ast.Eq, ast.NotEq)):
+            return None
+        for x, y in ((a, b), (b, a)):
+            if not (x.sym and y.kind == "const" and isinstance(y.val, (str, bytes)) and y.val):
+                continue
+            o, args = destruct(x.sym)
+            n = len(y.val)
+            F = None
+            if o == "slice" and len(args) == 4 and args[3] == "":
+                if args[1] in ("", "0") and args[2] == str(n):
+                    F = T("startswith", args[0], K(y.val))
+                elif args[1] == str(-n) and args[2] == "":
+                    F = T("endswith", args[0], K(y.val))
+            elif o == "idx" and n == 1 and len(args) == 2 and destruct(args[0])[0] not in (
+                    "split", "rsplit", "splitlines", "partition", "rpartition", "groups", "list", "tuple", "listcomp", "gen", "setcomp", "items", "keys", "values", "sorted", "findall"):
+                # (indexing a string; the element of a list of strings is a different question)
+                if args[1] == "0":
+                    F = T("startswith", args[0], K(y.val))
+                elif args[1] == "-1":
+                    F = T("endswith", args[0], K(y.val))
+            if F is None:
+                continue
+            known = st.facts.get(F, (None, None))[0]
+            outs = []
+            for val in ((True, False) if known is None else (known,)):
+                s = st.copy()
+                s.facts[F] = (val, False)
+                outs.append((s, val if isinstance(node.ops[0], ast.Eq) else not val))
+            return outs
+        return None
 
     def _quantifier(self, it, st, node, g, which):
         """any(E(x) for x in I) over a symbolic iterable: two outcomes - True with a witness `some(I)` on which E holds, False with
@@ -439,7 +479,40 @@ def norm(t: str) -> str:
     if op == "iter" and len(nargs) == 1:
         return nargs[0]
     parts = None
-    if op in ("fstr", "cat"):
+    if op == "format" and nargs and _is_strconst(nargs[0]) and isinstance(destruct(nargs[0])[1], str) and not any("=" in a.split("(", 1)[0] and not a.startswith(("'", '"')) for a in nargs[1:]):
+        # "..{}..{}..".format(a, b)  ==  f"..{a}..{b}.."   (automatic or explicit positional fields without spec/conversion)
+        import string as _string
+        try:
+            fields = list(_string.Formatter().parse(destruct(nargs[0])[1]))
+        except ValueError:
+            fields = None
+        if fields is not None:
+            ps, auto, ok = [], 0, True
+            for lit, name, spec, conv in fields:
+                if lit:
+                    ps.append(term_of(const(lit)))
+                if name is None:
+                    continue
+                if spec or conv:
+                    ok = False
+                    break
+                if name == "":
+                    i = auto
+                    auto += 1
+                elif name.isdigit():
+                    i = int(name)
+                else:
+                    ok = False
+                    break
+                if i + 1 >= len(nargs):
+                    ok = False
+                    break
+                ps.append(nargs[1 + i])
+            if ok:
+                parts = ps
+    if parts is not None:
+        pass
+    elif op in ("fstr", "cat"):
         parts = list(nargs)
     elif op == "add" and len(nargs) == 2:
         l_op, _ = destruct(nargs[0])
